@@ -652,6 +652,14 @@ func (env *Environment) handleHooks(workflow workflow.Role, trigger string, weig
 	for k := range callsMapForAwait {
 		allWeightsSet[k] = callable.Hooks{}
 	}
+	// calls started here may be awaited at another weight of this very trigger
+	for _, hooksForWeight := range hooksMapForTrigger {
+		for _, call := range hooksForWeight.FilterCalls() {
+			if awaitName, awaitWeight := callable.ParseTriggerExpression(call.GetTraits().Await); awaitName == trigger {
+				allWeightsSet[awaitWeight] = callable.Hooks{}
+			}
+		}
+	}
 	allWeights := allWeightsSet.GetWeights()
 
 	filteredWeights := make([]callable.HookWeight, 0)
